@@ -21,6 +21,7 @@
 //!     bspy | bunix | budp | unix (unbuffered; stats only).  Metrics are `t<thread>.<seq>` padded to a per-thread length.
 //!
 //!   socklock <cap> => ok | <what went wrong>     deterministic lock-contention scenario (blocking bunix)
+//!   sockcr <udp|budp> <n> => sink<errs>.<dropped>.<attempts> ctl<refused>    ECONNREFUSED injection with a control socket
 
 use cadence::{
     BufferedSpyMetricSink, BufferedUdpMetricSink, BufferedUnixMetricSink, MetricSink, QueuingMetricSink, SinkStats,
@@ -605,6 +606,60 @@ fn run_lock(cap: usize) -> String {
     "ok".to_string()
 }
 
+/// ECONNREFUSED injection: a UDP socket connected to a closed loopback port reports the ICMP
+/// port-unreachable answer to one send as an error of the *next* send (which the kernel then does not
+/// perform).  A control socket prepared the same way and used directly tells what the kernel does; the
+/// sink on its own such socket must report refusals too (it must not turn the socket's error into Ok).
+fn closed_addr() -> Option<std::net::SocketAddr> {
+    let t = UdpSocket::bind("127.0.0.1:0").ok()?;
+    let a = t.local_addr().ok()?;
+    drop(t);
+    Some(a)
+}
+
+fn run_cr(kind: &str, n: usize) -> String {
+    let attempt = |buffered: bool| -> Option<(usize, usize, usize)> {
+        let addr = closed_addr()?;
+        let sock = UdpSocket::bind("127.0.0.1:0").ok()?;
+        sock.connect(addr).ok()?;
+        let sink: DynSink = if buffered {
+            Arc::new(BufferedUdpMetricSink::with_capacity(addr, sock, 8).ok()?)
+        } else {
+            Arc::new(UdpMetricSink::from(addr, sock).ok()?)
+        };
+        let mut errs = 0usize;
+        for i in 0..n {
+            // 7 bytes + newline fill the 8-byte buffer exactly: every emit after the first sends the previous line
+            match catch_unwind(AssertUnwindSafe(|| sink.emit(&format!("cr{:05}", i)))) {
+                Ok(Ok(_)) => {}
+                Ok(Err(_)) => errs += 1,
+                Err(_) => return None,
+            }
+        }
+        let st = sink.stats();
+        Some((errs, st.packets_dropped as usize, (st.packets_sent + st.packets_dropped) as usize))
+    };
+    let control = |sends: usize| -> Option<usize> {
+        let addr = closed_addr()?;
+        let sock = UdpSocket::bind("127.0.0.1:0").ok()?;
+        sock.connect(addr).ok()?;
+        let mut refused = 0usize;
+        for i in 0..sends {
+            if sock.send_to(format!("cr{:05}", i).as_bytes(), addr).is_err() {
+                refused += 1;
+            }
+        }
+        Some(refused)
+    };
+    match attempt(kind == "budp") {
+        None => "setup-failed".to_string(),
+        Some((errs, dropped, attempts)) => match control(attempts.max(n)) {
+            None => "setup-failed".to_string(),
+            Some(refused) => format!("sink{}.{}.{} ctl{}", errs, dropped, attempts, refused),
+        },
+    }
+}
+
 fn run_line(line: &str) -> Option<String> {
     let line = line.split(" => ").next().unwrap().trim();
     if line.is_empty() || line.starts_with('#') {
@@ -622,6 +677,7 @@ fn run_line(line: &str) -> Option<String> {
             run_mt(f[1], f[2].parse().unwrap_or(64), f[3].parse().unwrap_or(2), f[4].parse().unwrap_or(10), f[5] == "1")
         )),
         "socklock" if f.len() == 2 => Some(format!("{} => {}", line, run_lock(f[1].parse().unwrap_or(64)))),
+        "sockcr" if f.len() == 3 => Some(format!("{} => {}", line, run_cr(f[1], f[2].parse().unwrap_or(8)))),
         _ => Some(format!("{} => malformed", line)),
     }
 }
@@ -696,7 +752,8 @@ fn main() {
         let (cap, capn) = if !buffered {
             ("-".to_string(), 0)
         } else {
-            match rng.below(7) {
+            match rng.below(8) {
+                7 => ("9000".to_string(), 9000),
                 0 => ("d".to_string(), 512),
                 1 => ("0".to_string(), 0),
                 2 => ("1".to_string(), 1),
@@ -724,10 +781,16 @@ fn main() {
         let cap = [16usize, 64, 512][i % 3];
         let threads = 2 + (i * 3) % 15;
         let per = if kind == "unix" { 1500 } else if tier == "quick" { 60 } else { 150 + (i * 13) % 300 };
-        let flushes = i % 4 == 3;
+        let flushes = (i / 4) % 2 == 1;
         let obs = run_mt(kind, cap, threads, per, flushes);
         writeln!(out, "sockmt {} {} {} {} {} => {}", kind, cap, threads, per, if flushes { 1 } else { 0 }, obs).unwrap();
         count += 1;
+    }
+    for kind in ["udp", "budp"] {
+        for n in if tier == "quick" { vec![8usize, 20] } else { vec![4usize, 8, 20, 100] } {
+            writeln!(out, "sockcr {} {} => {}", kind, n, run_cr(kind, n)).unwrap();
+            count += 1;
+        }
     }
     for cap in if tier == "quick" { vec![64usize] } else { vec![16usize, 64, 512] } {
         writeln!(out, "socklock {} => {}", cap, run_lock(cap)).unwrap();
